@@ -17,7 +17,9 @@ import (
 	"testing"
 
 	corev1 "k8s.io/api/core/v1"
+	kerrors "k8s.io/apimachinery/pkg/api/errors"
 	metav1 "k8s.io/apimachinery/pkg/apis/meta/v1"
+	"k8s.io/apimachinery/pkg/runtime/schema"
 	"k8s.io/apimachinery/pkg/types"
 	"sigs.k8s.io/controller-runtime/pkg/client"
 
@@ -44,7 +46,7 @@ func TestVerifReplay(t *testing.T) {
 				}
 				for _, pname := range []string{"Manual", "Automatic", "unset"} {
 					pol := policies[pname]
-					for _, fault := range []string{"none", "claim update fails", "xr apply fails"} {
+					for _, fault := range []string{"none", "claim update fails", "xr apply fails", "xr apply: already exists"} {
 						n++
 						cm := claim.New()
 						cm.SetName("cool-claim")
@@ -67,6 +69,7 @@ func TestVerifReplay(t *testing.T) {
 							xr.SetCreationTimestamp(metav1.Now())
 							xr.SetUID(types.UID("xr-uid"))
 							meta.SetExternalName(xr, "xr-external")
+							meta.AddAnnotations(xr, map[string]string{"user": "an-older-value"})
 							xr.SetCompositionUpdatePolicy(pol)
 							xr.SetCompositionRevisionReference(&corev1.LocalObjectReference{Name: "xr-rev"})
 							xr.SetResourceReferences([]corev1.ObjectReference{{Name: "composed"}})
@@ -89,6 +92,10 @@ func TestVerifReplay(t *testing.T) {
 							order = append(order, "apply-xr")
 							if fault == "xr apply fails" {
 								return errors.New("boom")
+							}
+							if fault == "xr apply: already exists" {
+								// e.g. the claim's own XR was created but cannot be read back yet
+								return kerrors.NewAlreadyExists(schema.GroupResource{Resource: "xthings"}, o.GetName())
 							}
 							applied = &composite.Unstructured{Unstructured: *o.(*composite.Unstructured).Unstructured.DeepCopy()}
 							if xrState == "exists" {
@@ -123,6 +130,9 @@ func TestVerifReplay(t *testing.T) {
 								t.Fatalf("VERIF-REPRODUCED: %s: the claim now references XR %q instead of %q - a second XR is created and the first one leaks", desc, cm.GetResourceReference().Name, wantName)
 							}
 						}
+						if claimHasRef && (cm.GetResourceReference() == nil || cm.GetResourceReference().Name != "cool-claim-recorded") {
+							t.Fatalf("VERIF-REPRODUCED: %s: the claim had recorded XR \"cool-claim-recorded\" and now records %v: the next reconcile creates another XR and the first one leaks", desc, cm.GetResourceReference())
+						}
 						if fault == "claim update fails" && !claimHasRef && err == nil {
 							t.Fatalf("VERIF-REPRODUCED: %s: the claim could not record the XR but Sync reports success", desc)
 						}
@@ -147,6 +157,9 @@ func TestVerifReplay(t *testing.T) {
 						}
 						if _, ok := applied.GetAnnotations()["kubectl.kubernetes.io/last-applied-configuration"]; ok {
 							t.Fatalf("VERIF-REPRODUCED: %s: a reserved annotation was propagated to the XR", desc)
+						}
+						if applied.GetAnnotations()["user"] != "yes" {
+							t.Fatalf("VERIF-REPRODUCED: %s: the claim's annotation user=yes reached the XR as %q", desc, applied.GetAnnotations()["user"])
 						}
 						if xrState == "exists" && meta.GetExternalName(applied) != "xr-external" {
 							t.Fatalf("VERIF-REPRODUCED: %s: the XR's own external name became %q", desc, meta.GetExternalName(applied))
